@@ -95,6 +95,7 @@ class ClassSpec:
     setitem: object = None
     delitem: object = None  # delitem(ex, st, self, idx, node): `del obj[idx]` (writes the heap; KeyError obligation is the hook's job)
     contains: object = None
+    eq: object = None  # eq(ex, st, self, other, node) -> z3 Bool / bool: `obj == <non-object value>` (and `!=`) at the top level of a comparison
     iter: object = None
     length: object = None
     truth: object = None
